@@ -68,6 +68,42 @@ def load_components():
     return comps
 
 
+def conditional_directives(repo=None):
+    """every #if/#ifdef/#ifndef/#elif of the library's own sources except include guards: only the configuration of
+    THIS machine is extracted and verified, so a conditional the contracts were not written against (an architecture
+    branch with other memory orders, ...) makes the check undecided"""
+    repo = repo or REPO
+    found = []
+    for top in ('src', 'include'):
+        for dp, dn, fn in os.walk(os.path.join(repo, top)):
+            for f in sorted(fn):
+                if not f.endswith(('.hpp', '.cpp', '.h', '.cc', '.ipp', '.inc')):
+                    continue
+                path = os.path.join(dp, f)
+                try:
+                    lines = open(path, errors='replace').read().splitlines()
+                except OSError:
+                    continue
+                for i, l in enumerate(lines):
+                    m = re.match(r'\s*#\s*(if|ifdef|ifndef|elif)\b\s*(.*?)\s*(//.*)?$', l)
+                    if not m:
+                        continue
+                    if m.group(1) == 'ifndef' and i + 1 < len(lines) and re.match(r'\s*#\s*define\s+%s\b' % re.escape(m.group(2)), lines[i + 1]):
+                        continue   # include guard
+                    found.append('%s: #%s %s' % (os.path.relpath(path, repo), m.group(1), ' '.join(m.group(2).split())))
+    return sorted(found)
+
+
+def new_conditionals():
+    try:
+        base = json.load(open(os.path.join(ROOT, 'contracts', 'signatures.json'))).get('#conditionals')
+    except Exception:
+        base = None
+    if base is None:
+        return []
+    return [c for c in conditional_directives() if c not in base]
+
+
 def build_component(comp, workdir):
     """extract the TU from the current /repo tree and splice the contracts"""
     os.makedirs(workdir, exist_ok=True)
@@ -117,6 +153,7 @@ def build_component(comp, workdir):
         base_st = json.load(open(os.path.join(ROOT, 'contracts', 'signatures.json'))).get(comp.name + '#statics')
     except Exception:
         base_st = None
+    meta['new_conditionals'] = new_conditionals()
     meta['new_statics'] = sorted(x for x in meta.get('storage', {}) if base_st is not None and x not in base_st)
     if base is not None:
         bodies = {m.group(1): m.group(2) for m in re.finditer(r'^/\*@FUNC (\w+)\*/\n[^\n]*\n(.*?)^\}\n', raw_text, re.M | re.S)}
@@ -424,6 +461,11 @@ def main():
                 # the bounded native stand-ins do not depend on the extraction: still run them
                 metas[c.name] = {'missing_contracts': [], 'sigs': {}, 'tagmap': {}, 'cfile': '', 'static_facts': []}
                 gs = [g for g in gs if g.native]
+            if metas[c.name].get('new_conditionals'):
+                msg = 'conditional compilation the contracts were not written against (only the configuration of this machine is extracted and verified): %s' % (
+                    '; '.join(metas[c.name]['new_conditionals']))
+                if msg not in infra:
+                    infra.append(msg)
             if metas[c.name].get('new_statics'):
                 infra.append('%s: new object(s) with static or thread storage duration that no contract knows (hidden state shared between calls, objects or threads?): %s' % (
                     c.name, ', '.join(metas[c.name]['new_statics'])))
